@@ -55,7 +55,7 @@ def rand_json(rng, depth=0):
         return None
     if kind == "list":
         return [rand_json(rng, depth + 1) for _ in range(rng.randint(0, 3))]
-    keys = rng.sample(["id", "name", "a/b", "m~n", "", "items", "0", "1", "k}", "deep", "-"], rng.randint(1, 4))
+    keys = rng.sample(["id", "name", "a/b", "m~n", "", "items", "0", "1", "k}", "deep", "-", "~1", "x~1y", "~0", "/", "~"], rng.randint(1, 5))
     return {k: rand_json(rng, depth + 1) for k in keys}
 
 
@@ -325,6 +325,9 @@ def link_document():
                     "responses": {
                         "201": dict(ok_obj, links=links_exact),
                         "2XX": dict(ok_obj, links=links_wild),
+                        # documented codes without links: `default` must not pick these responses up
+                        "404": copy.deepcopy(ok_obj),
+                        "5XX": copy.deepcopy(ok_obj),
                         "default": dict(ok_obj, links=links_default),
                     },
                 }
@@ -352,20 +355,20 @@ def link_document():
 
 
 def make_dynamic(seed):
-    statuses = [201, 201, 200, 202, 400, 201, 500, 204, 201, 404]
-    state = {"n": 0}
+    statuses = [201, 201, 200, 202, 400, 201, 500, 204, 201, 404, 409, 503, 201, 200, 422]
+    import zlib
 
     def dynamic(record, then):
         if record["method"] == "POST" and record["path"] == "/items":
-            state["n"] += 1
-            n = state["n"]
+            # a pure function of the request: Hypothesis replays must see the same API behaviour
+            n = zlib.crc32((record["raw_path"] + "|" + record["body"]).encode("utf-8", "replace"))
             rng = random.Random(f"{seed}:{n}")
             status = statuses[n % len(statuses)]
-            ident = rng.randint(1, 999)
+            ident = rng.choice([0, 0, rng.randint(1, 999), rng.randint(1, 999)])  # falsy values are values too
             if status >= 400:
-                body = {"error": {"ref": rng.randint(1000, 1999), "msg": "no"}}
+                body = {"error": {"ref": rng.choice([0, rng.randint(1000, 1999)]), "msg": "no"}}
             else:
-                body = {"id": ident, "name": rng.choice(["ann", "bob", "c d", "é"]), "tags": [rng.choice(["t1", "t2"])]}
+                body = {"id": ident, "name": rng.choice(["ann", "bob", "c d", "é", ""]), "tags": [rng.choice(["t1", "t2", ""])]}
             headers = {"X-Token": f"tok{rng.randint(10, 99)}", "Location": f"/items/{ident}"}
             return status, headers, json.dumps(body).encode(), "application/json"
         return None
@@ -392,7 +395,7 @@ def part2_run(seed, cfg_extra):
     from vmon.instr import engine
 
     doc = link_document()
-    cfg = {"phases": ["stateful"], "max_examples": 8, "seed": seed, "stateful_step_count": 5}
+    cfg = {"phases": ["stateful"], "max_examples": 8, "seed": seed, "stateful_step_count": 5, "checks": []}
     cfg.update(cfg_extra)
     result = engine.run_api(doc, cfg, dynamic=make_dynamic(seed), timeout=150)
     return doc, result
